@@ -565,6 +565,8 @@ var (
 	c03HostTMs  = []c03TM{
 		{"exact", "a.com"}, {"exact", "b.com"}, {"exact", "a.com:8080"}, {"glob", "*.com"}, {"glob", "a.*"}, {"glob", "**"},
 		{"glob", "{a,b}.com"}, {"regex", `^a\.`}, {"regex", "com$"}, {"regex", ".*"}, {"regex", "^b"}, {"exact", "c.org"},
+		// globs whose answer depends on '.' being the separator for hosts
+		{"glob", "*"}, {"glob", "a*"}, {"glob", "*com"},
 	}
 	c03BadTMs   = []c03TM{{"glob", "[a"}, {"glob", ""}, {"regex", "("}, {"regex", ""}, {"prefix", "a"}, {"", "a"}}
 	c03ReqHosts = []string{"a.com", "b.com", "c.org", "a.com:8080", "A.com"}
